@@ -214,3 +214,165 @@ def gen_elided_names(rng) -> tuple[str, dict]:
               "reveal_type(Sub.%s)" % m]
         uses.append("override")
     return "\n".join(L) + "\n", {"methods": ms, "plain": plain, "uses": uses, "annotated": ann}
+
+
+# ------------------------------------------------------------------------------------ static reachability
+GUARD_POSITIONS = ["module", "function", "async-function", "class", "method", "try-body", "except", "try-else", "finally",
+                   "with", "for-body", "for-else", "while-body", "while-else", "match-case", "nested-if", "elif", "if-else"]
+
+
+def _guard(rng, ver):
+    """(condition text, truth for the checker at target `ver` on platform linux)"""
+    minor = ver[1]
+    k = rng.choice(["ge", "ge", "lt", "ge-far", "lt-far", "platform", "platform-ne", "tc", "not-tc", "mypy", "not-mypy", "ge-paren", "and"])
+    if k in ("ge", "lt", "ge-paren"):
+        n = rng.choice([minor - 1, minor, minor + 1])
+        if k == "ge":
+            return "sys.version_info >= (3, %d)" % n, minor >= n
+        if k == "ge-paren":
+            return "(sys.version_info >= (3, %d))" % n, minor >= n
+        return "sys.version_info < (3, %d)" % n, minor < n
+    if k == "ge-far":
+        return "sys.version_info >= (3, 99)", False
+    if k == "lt-far":
+        return "sys.version_info < (3, 99)", True
+    if k == "platform":
+        p = rng.choice(["win32", "plan9", "darwin"])
+        return 'sys.platform == "%s"' % p, False
+    if k == "platform-ne":
+        return 'sys.platform != "win32"', True
+    if k == "tc":
+        return "TYPE_CHECKING", True
+    if k == "not-tc":
+        return "not TYPE_CHECKING", False
+    if k == "mypy":
+        return "MYPY", True
+    if k == "not-mypy":
+        return "not MYPY", False
+    return 'sys.version_info >= (3, 99) and sys.platform == "win32"', False
+
+
+def _payload(rng, uid: int, ignores: bool) -> list[str]:
+    """1–3 physical lines with something the checker would complain about, optionally with ignore comments on the
+    first / middle / LAST line"""
+    cand = [
+        ("import nonexistent_mod_%d" % uid, "import-not-found"),
+        ("from nonexistent_pkg_%d import thing_%d" % (uid, uid), "import-not-found"),
+        ("v%d: int = ''" % uid, "assignment"),
+        ("sys.argv.nope_%d" % uid, "attr-defined"),
+        ("undefined_name_%d" % uid, "name-defined"),
+        ("w%d = 1 + ''" % uid, "operator"),
+    ]
+    n = rng.choice([1, 2, 3])
+    picks = [rng.choice(cand) for _ in range(n)]
+    out = []
+    for i, (text, code) in enumerate(picks):
+        where = "last" if i == n - 1 else "first" if i == 0 else "middle"
+        if ignores and rng.random() < (0.7 if where == "last" else 0.45):
+            tag = rng.choice(["[%s]" % code, "[%s]" % code, "", "[misc]"])
+            text += "  # type: ignore" + tag
+        out.append(text)
+    return out
+
+
+def gen_static_reachability(rng, ver) -> tuple[str, dict]:
+    uid = [0]
+    used = []
+
+    def guarded(ind: str, depth: int = 0) -> list[str]:
+        uid[0] += 1
+        cond, truth = _guard(rng, ver)
+        ignores = rng.random() < 0.75
+        body = [ind + "    " + l for l in _payload(rng, uid[0], ignores)]
+        out = [ind + "if " + cond + ":"] + body
+        shape = rng.choice(["plain", "plain", "else", "elif"])
+        if shape == "else":
+            uid[0] += 1
+            out += [ind + "else:"] + [ind + "    " + l for l in _payload(rng, uid[0], ignores)]
+        elif shape == "elif":
+            uid[0] += 1
+            c2, _ = _guard(rng, ver)
+            out += [ind + "elif " + c2 + ":"] + [ind + "    " + l for l in _payload(rng, uid[0], ignores)]
+            if rng.random() < 0.5:
+                uid[0] += 1
+                out += [ind + "else:"] + [ind + "    " + l for l in _payload(rng, uid[0], ignores)]
+        return out
+
+    def place(pos: str) -> list[str]:
+        g = guarded
+        if pos == "module":
+            return g("")
+        if pos == "function":
+            return ["def fn_%d() -> None:" % uid[0]] + g("    ") + ["    release()"]
+        if pos == "async-function":
+            return ["async def afn_%d() -> None:" % uid[0]] + g("    ")
+        if pos == "class":
+            return ["class K_%d:" % uid[0]] + g("    ") + ["    attr: int = 0"]
+        if pos == "method":
+            return ["class M_%d:" % uid[0], "    def meth(self) -> None:"] + g("        ")
+        if pos == "try-body":
+            return ["try:"] + g("    ") + ["except OSError:", "    pass"]
+        if pos == "except":
+            return ["try:", "    release()", "except OSError:"] + g("    ")
+        if pos == "try-else":
+            return ["try:", "    release()", "except OSError:", "    pass", "else:"] + g("    ")
+        if pos == "finally":
+            return ["try:", "    release()", "finally:"] + g("    ") + ["    release()"]
+        if pos == "with":
+            return ["with open('f') as fh_%d:" % uid[0]] + g("    ")
+        if pos == "for-body":
+            return ["for it_%d in range(3):" % uid[0]] + g("    ")
+        if pos == "for-else":
+            return ["for it_%d in range(3):" % uid[0], "    pass", "else:"] + g("    ")
+        if pos == "while-body":
+            return ["while release():"] + g("    ") + ["    break"]
+        if pos == "while-else":
+            return ["while release():", "    pass", "else:"] + g("    ")
+        if pos == "match-case":
+            return ["match sys.argv:", "    case []:"] + g("        ") + ["    case _:", "        pass"]
+        if pos == "nested-if":
+            return ["if release():"] + g("    ")
+        if pos == "elif":
+            return ["if release():", "    pass", "elif release():"] + g("    ")
+        return ["if release():", "    pass", "else:"] + g("    ")
+
+    L = []
+    if rng.random() < 0.85:
+        L.append("# mypy: warn-unused-ignores")
+    L += ["import sys", "from typing import TYPE_CHECKING", "MYPY = False", "", "def release() -> bool:", "    return True", ""]
+    positions = [p for p in GUARD_POSITIONS if p != "match-case" or ver >= (3, 10)]
+    for _ in range(rng.choice([2, 3, 4])):
+        pos = rng.choice(positions)
+        used.append(pos)
+        L += place(pos) + [""]
+    return "\n".join(L) + "\n", {"positions": used}
+
+
+def real_skipped(src: str, ver) -> dict | None:
+    """Default front end: the outermost statically unreachable blocks [(line, end_line)] and `skipped_lines` after
+    SemanticAnalyzerPreAnalysis, plus `ignored_lines`; native front end: `ignored_lines` and `skipped_lines`."""
+    from mypy.nodes import Block
+    from mypy.semanal_pass1 import SemanticAnalyzerPreAnalysis
+    from mypy.traverser import TraverserVisitor
+
+    from . import norm
+    tree, msgs, blocked, crash = norm.parse_file(src, False, tuple(ver))
+    if tree is None or blocked:
+        return None
+    o = norm._options(False, tuple(ver))
+    SemanticAnalyzerPreAnalysis().visit_file(tree, "main.py", "__main__", o)
+    blocks: list[list[int]] = []
+
+    class V(TraverserVisitor):
+        def visit_block(self, b: Block) -> None:
+            if b.is_unreachable:
+                if b.end_line is not None:
+                    blocks.append([b.line, b.end_line])
+                return
+            super().visit_block(b)
+
+    tree.accept(V())
+    ntree, nmsgs, nblocked, ncrash = norm.parse_file(src, True, tuple(ver))
+    return {"blocks": blocks, "skipped": sorted(tree.skipped_lines), "ignored": sorted(int(k) for k in tree.ignored_lines),
+            "native_ignored": None if ntree is None or nblocked else sorted(int(k) for k in ntree.ignored_lines),
+            "native_skipped": None if ntree is None or nblocked else sorted(getattr(ntree, "skipped_lines", set()) or [])}
